@@ -456,7 +456,11 @@ def _c09(work, v, tier, seed):
     cfg = write_cfg(work, "Gen_SW_%s.cfg" % tier, spec=None, invariants=["Emit"], constants={"MaxLen": 3 if tier == "quick" else 4})
     cases, n, r = vf.tlc_gen(work, "Gen_SW", cfg, workers=8)
     v.add_mc(r, "gen:SW")
-    trace = vf.drive(work, "sw", cases=cases, n=400 if tier == "quick" else 6000, seed=seed, tier=tier)
+    trace = vf.drive(work, "sw", cases=cases, n=400 if tier == "quick" else 6000, seed=seed, tier=tier, env=cli_env(work, 2))
+    ncli = sum(1 for l in open(trace) if ':cli"' in l)
+    if ncli == 0:
+        raise vf.ToolingError("no pair was aligned through the command line")
+    v.notes.append("command-line front: %d pairs aligned by `goalign sw` (rows, positions, counts and score from its output and log) judged like the library's" % ncli)
     res = vf.tlc_trace(work, "Trace_SW", trace, cfg=write_cfg(work, "Trace_SW.cfg", invariants=["Done"]))
     simple_account(v, trace, res, "sw", "Trace_SW", key=lambda e: {"s1": e["s1"], "s2": e["s2"], "sch": e["sch"]},
                    sample=lambda e: {"s1": bytes(e["s1"]).decode(), "s2": bytes(e["s2"]).decode(), "scheme": e["sch"], "outcome": e["kind"],
